@@ -26,10 +26,12 @@ Trace == ndJsonDeserialize(IOEnv.TRACE)
 Ev == Trace[l]
 Chk(ok, guard, sig) == IF ok THEN <<>> ELSE <<[line |-> l, guard |-> guard, sig |-> sig]>>
 
-NoObs == [pool |-> [exists |-> FALSE, hashAnn |-> "-", verAnn |-> "-", specHash |-> "-", reqs |-> <<>>], claims |-> <<>>, types |-> <<>>]
+NoObs == [pool |-> [exists |-> FALSE, hashAnn |-> "-", verAnn |-> "-", specHash |-> "-", tmplCanon |-> "-", reqs |-> <<>>],
+          claims |-> <<>>, types |-> <<>>]
 NoPend == [ctrl |-> "-", c |-> "-", err |-> "-"]
 St0(cfg) == [cfg |-> cfg, obs |-> NoObs, pre |-> NoObs, pend |-> NoPend,
-             born |-> <<>>,     \* claim name -> specHash of the pool when the claim was created (re-set by a version migration)
+             born |-> <<>>,     \* claim name -> canonical form of the pool's template (without requirements, lists sorted; computed by the
+                                \* driver from the API JSON, NOT by Hash()) when the claim was created; re-set by a version migration
              fresh |-> <<>>,    \* claim name -> BOOLEAN
              tamp |-> <<>>]     \* claim name -> BOOLEAN: its labels / hash annotations were edited by the environment
 
@@ -74,7 +76,7 @@ TStep ==
 ReqSig(p, x) == IF ReqDrift(p, x) THEN p.reqs[FirstViolated(x.labels, x.ilabels, p.reqs)].cls ELSE "-"
 Why(p, x) == IF StaticDrift(p, x) THEN "static" ELSE IF ReqDrift(p, x) THEN "req:" \o ReqSig(p, x) ELSE "none"
 Stage(x) == IF x.registered = "True" THEN "registered" ELSE "unregistered"
-TemplateChanged(n, p) == n \in DOMAIN st.born /\ st.born[n] # "-" /\ st.born[n] # p.specHash
+TemplateChanged(n, p) == n \in DOMAIN st.born /\ st.born[n] # "-" /\ st.born[n] # p.tmplCanon
 
 DriftChecks(n) ==
     IF ~(HasClaim(st.pre, n) /\ HasClaim(Ev, n)) THEN <<>> ELSE
@@ -88,7 +90,7 @@ DriftChecks(n) ==
      \o Chk(G_C15_NoSpuriousDrift(p, x, y, st.pre.types, K, pn), "G_C15_NoSpuriousDrift", "spurious:" \o y.reason)
      \* a NodeClaim freshly created from the pool and launched is not reported Drifted
      \o Chk((ev /\ q /\ Get(st.fresh, n, FALSE)) => y.drifted # "True", "Inv_C15_NoSelfDrift", y.reason \o ":" \o Why(p, x))
-     \* end to end: a change of the template (its real Hash() differs from the one the claim was born under) is reported,
+     \* end to end: a change of the template (its canonical content differs from the one the claim was born under) is reported,
      \* once the hash controller has caught up, for a claim stamped with the current hash version
      \o Chk((ev /\ q /\ x.verAnn = st.cfg.cur /\ ~Get(st.tamp, n, FALSE) /\ TemplateChanged(n, p)) => y.drifted = "True",
             "G_C15_TemplateChangeReported", Stage(x))
@@ -99,10 +101,10 @@ HashChecks ==
 
 \* ghost updates at an Obs
 NewBorn(n) ==
-    IF n \notin DOMAIN st.born THEN Ev.pool.specHash
+    IF n \notin DOMAIN st.born THEN Ev.pool.tmplCanon
     ELSE IF st.pend.ctrl = "nodepool.hash" /\ st.pend.err = "-" /\ st.pre.pool.verAnn # st.cfg.cur /\ HasClaim(st.pre, n)
             /\ ClaimIn(st.pre, n).verAnn # st.cfg.cur /\ ClaimIn(st.pre, n).drifted = "Absent"
-         THEN Ev.pool.specHash      \* version migration of an undrifted claim: it is re-born under the pool's current template
+         THEN Ev.pool.tmplCanon     \* version migration of an undrifted claim: it is re-born under the pool's current template
          ELSE st.born[n]
 NewFresh(n) ==
     IF n \notin DOMAIN st.fresh THEN TRUE
